@@ -288,6 +288,9 @@ class Cap(object):
                 for s, bv in self.ev(n0["ch"][0], st):
                     if bv[0] == "o":
                         res.append((s, ("heap", (bv[1], n0["n"]), n0)))
+                    elif bv[0] == "p" and bv[2].is_const() and bv[2].c == 0 and ("addrof", bv[1]) in s.heap:
+                        # a pointer to a struct local (a helper handed &run): the field is that local's own field
+                        res.append((s, ("heap", (("dot", s.heap[("addrof", bv[1])]), n0["n"]), n0)))
                     elif bv[0] == "p" and bv[2].is_const() and bv[2].c == 0 and s.regions.get(bv[1]) is not None:
                         rg = s.regions[bv[1]]
                         if rg.freed:
@@ -1137,6 +1140,9 @@ class Cap(object):
                 nm_ = fresh("w")
                 st.heap[("lval", dst[1])] = I(Lin.sym(nm_))
                 st.imprecise.add(nm_) if hasattr(st, "imprecise") else None
+                # ... and so are the fields of a struct local
+                for kx in [kx for kx in st.heap if isinstance(kx, tuple) and len(kx) == 2 and kx[0] == ("dot", d_)]:
+                    del st.heap[kx]
         if dst[0] == "p":
             r = st.regions.get(dst[1])
             if r is not None:
@@ -2151,8 +2157,33 @@ class Cap(object):
                 return None
             return r_
 
+        # a byte local that holds the byte under a cursor at the loop head (c = *s; while (c ..) { ..; s++; c = *s; }): in the
+        # summary it is again the byte at the cursor's (havocked) position - checked like the other shapes: it must hold on
+        # entry and be re-established by every way round, else the local is an unknown integer
+        byteholders = {}
+        for p_ in parts:
+            for x in walk(p_):
+                if x.get("k") == "assign" and x.get("op") == "=":
+                    l_, r_ = X.strip(x["ch"][0]), X.strip(x["ch"][1])
+                    if l_ is not None and l_.get("k") == "ref" and l_.get("rk") == "local" and not l_.get("tp") and (l_.get("tw") or 0) == 8 and \
+                            r_ is not None and r_.get("k") == "un" and r_.get("op") == "*":
+                        t_ = X.strip(r_["ch"][0])
+                        if t_ is not None and t_.get("k") == "ref" and t_.get("rk") in ("local", "param") and t_.get("tp"):
+                            if byteholders.get(l_["d"], t_["d"]) != t_["d"]:
+                                byteholders[l_["d"]] = None
+                            else:
+                                byteholders[l_["d"]] = t_["d"]
+        byteholders = {c_: s_ for c_, s_ in byteholders.items() if s_ is not None and c_ in locs}
+
+        def holds_byte(sx, c_, s_):
+            cv_, sv_ = sx.env.get(c_), sx.env.get(s_)
+            if cv_ is None or sv_ is None or cv_[0] != "i" or sv_[0] != "p":
+                return False
+            cell_ = sx.heap.get(("cell", sv_[1], sv_[2]))
+            return cell_ is not None and cell_ == cv_
         # havoc
         nullkeys = set()
+        bhkeys = set()
         disabled_now = set()
 
         def havoc(base, groups=()):
@@ -2233,6 +2264,16 @@ class Cap(object):
                         h.heap[key] = UNK
             # memory may be written in the loop: cells read before it are no longer known
             self.forget_cells(h)
+            bhkeys.clear()
+            for c_, s_ in byteholders.items():
+                if ("bh", c_) in disabled_now or not holds_byte(base, c_, s_):
+                    continue
+                sv_ = h.env.get(s_)
+                if sv_ is None or sv_[0] != "p" or h.regions.get(sv_[1]) is None or sv_[1] in written:
+                    continue
+                h.env[c_] = self.mem_read(h, sv_, 1, {"tw": 8})
+                sub.pop(c_, None)
+                bhkeys.add(c_)
             return h, sub
 
         # buffers the loop writes: their string length / terminator position are loop-carried too
@@ -2448,7 +2489,7 @@ class Cap(object):
                     hs.cons = hs.cons + [c[1] for c in keep]
                     if not feasible(hs.cons):
                         keep = []
-                        shape_broken |= set(groups) | {("null", d_) for d_ in nullkeys}
+                        shape_broken |= set(groups) | {("null", d_) for d_ in nullkeys} | {("bh", c_) for c_ in bhkeys}
                         break
                     ends = self.one_iteration(n, hs)
                     for rid0, keys_ in groups.items():
@@ -2457,6 +2498,9 @@ class Cap(object):
                     for d_ in nullkeys:
                         if any((e.env.get(d_) or ("u",))[0] != "n" for e in ends):
                             shape_broken.add(("null", d_))
+                    for c_ in bhkeys:
+                        if any(not holds_byte(e, c_, byteholders[c_]) for e in ends):
+                            shape_broken.add(("bh", c_))
                     if shape_broken:
                         break
                     dropped = False
@@ -2487,16 +2531,16 @@ class Cap(object):
                         break
                 else:
                     keep = []        # no fixpoint within the round budget: nothing is assumed
-                    shape_broken |= set(groups) | {("null", d_) for d_ in nullkeys}
+                    shape_broken |= set(groups) | {("null", d_) for d_ in nullkeys} | {("bh", c_) for c_ in bhkeys}
             except TooManyStates:
                 if DEBUG_LOOPS:
                     print("LOOP line %s: TooManyStates during invariant inference (nstates=%d)" % (n.get("l"), self.nstates))
                 keep = []
-                shape_broken |= set(groups) | {("null", d_) for d_ in nullkeys}
+                shape_broken |= set(groups) | {("null", d_) for d_ in nullkeys} | {("bh", c_) for c_ in bhkeys}
             finally:
                 self.record = record_save
-            if not keep and (groups or nullkeys) and not shape_broken:
-                shape_broken |= set(groups) | {("null", d_) for d_ in nullkeys}     # the shape was only established under assumptions that did not survive
+            if not keep and (groups or nullkeys or bhkeys) and not shape_broken:
+                shape_broken |= set(groups) | {("null", d_) for d_ in nullkeys} | {("bh", c_) for c_ in bhkeys}     # the shape was only established under assumptions that did not survive
             if shape_broken:
                 disabled_groups |= shape_broken
                 continue
